@@ -28,7 +28,7 @@ RULE = ("cases = (base query, rewritten query) where the rewrite is a compositio
         "order, selection order, domain element order; result sets (rows keyed by role) must be equal and equal to the "
         "reference. Non-trivial = the rewritten case differs structurally from the base and the result is non-empty; "
         "distinct = distinct canonical JSON of the pair.")
-BUDGET = {"quick": (8, 700), "thorough": (16, 6000)}
+BUDGET = {"quick": (8, 1000), "thorough": (16, 6000)}
 ASSUMPTIONS = ["both variants are built from the AST as fresh expressions over fresh variables"]
 
 
